@@ -114,7 +114,7 @@ def run(m, chk):
         "compares with both limits; the ValueError escapes Curve.__call__ → eval → __eval → eval_spline_nodes / eval_rational_nodes (no handler on the chain catches it); the value depends on nodes, knot vector, control points and "
         "— rational branch — weights; divisors on the evaluation path are knot differences or the weight function, never a bare node. The value itself (span arithmetic, coefficient tables, right-continuity) is not decided."
     )
-    chk.decides = ["PARAM-KEPT (span and validity are decided on the caller's parameter itself, never on a value it was replaced by)", "WEIGHT-SCALE (nothing that scales with the weights is compared with a fixed number on the rational evaluation path)", "NODE-LOCAL (no loop over the caller's nodes keeps a forward-only cursor: the answer for a node does not depend on the nodes before it)", "ITER-ONCE (a one-pass iterable of nodes is materialised before anything else walks it)", "MEMO-KEY (no function on the path is memoised by the value of numbers / knot vectors)", "GATE(span before Horner)", "GATE-VALID(span)", "BOTH-LIMITS", "X-ESCAPE", "DEP-MAY", "ARG-FLOW(weights)", "D", 'HALF-OPEN (span tests on the evaluation path are a <= u < b)', 'POLY-ONLY', 'FORM-SELECT (one point for a scalar, a sequence for a sequence, decided by the form of the argument on every path)']
+    chk.decides = ["NODE-EACH (no evaluation function reads one particular element of the caller's node sequence: every value comes from its own node, the empty sequence included)", "PARAM-KEPT (span and validity are decided on the caller's parameter itself, never on a value it was replaced by)", "WEIGHT-SCALE (nothing that scales with the weights is compared with a fixed number on the rational evaluation path)", "NODE-LOCAL (no loop over the caller's nodes keeps a forward-only cursor: the answer for a node does not depend on the nodes before it)", "ITER-ONCE (a one-pass iterable of nodes is materialised before anything else walks it)", "MEMO-KEY (no function on the path is memoised by the value of numbers / knot vectors)", "GATE(span before Horner)", "GATE-VALID(span)", "BOTH-LIMITS", "X-ESCAPE", "DEP-MAY", "ARG-FLOW(weights)", "D", 'HALF-OPEN (span tests on the evaluation path are a <= u < b)', 'POLY-ONLY', 'FORM-SELECT (one point for a scalar, a sequence for a sequence, decided by the form of the argument on every path)']
     chk.not_decided = ["curve(u) equals the Cox-de Boor sum", "right-continuity at interior knots / left limit at umax", "order of the results for a sequence"]
     # 1a span dominates horner
     ctx = r.root(ESN)
@@ -247,6 +247,9 @@ def run(m, chk):
 
     node_local(r, chk, ['curves.Curve.eval', 'curves.Curve.__call__', 'functions.FunctionEvaluator.eval'], floor=4)
     chk.floor("MEMO-KEY", "functions reachable from the entry points examined for value-keyed memoisation", nm, 3)
+    from .extra import node_each
+
+    node_each(r, chk, ["heavy.eval_spline_nodes", "heavy.eval_rational_nodes", "curves.Curve.eval", "curves.Curve.__eval", "curves.BaseCurve.__call__"], floor=4)
     from .extra import iter_once
 
     iter_once(r, chk, "curves.Curve.eval", "nodes")
